@@ -104,6 +104,8 @@ def run(ctx):
         schedules(ctx, binary, "{1, 2, 3}", 2, 2, "3 callers x 2 calls, n=2")
     race = drv_binary(ctx, race=True)
     stress(ctx, binary, 4, 4, 6 if q else 8, 20 if q else 200, race_binary=race)
+    # LONG sequences (Scale.tla: Returns of up to 64 results, calls in bursts of 1 / 3 / 20)
+    life.scale(ctx, 60, 1200, ops={"SeqStub"})
     ctx.cov["exhaustive"] = True
     ctx.cov["rule"] = ("sequential: all histories of the sequence alphabet to the stated depth + random call strings; "
                        "concurrent: EVERY interleaving of the Load/Add/RetLast steps of the bounded model replayed "
